@@ -217,7 +217,14 @@ def run_driver(cases):
 
 
 def gen_cases(stream, seed, n):
-    rc, out = sh([HARNESS_BIN, "gen", stream, str(seed), str(n)])
+    # (generators call the crate too - to write the files they then damage, to pick conforming
+    # values -: a time limit, so that code under test that loops there is a reported failure of
+    # the stream and not a hung check)
+    try:
+        rc, out = sh([HARNESS_BIN, "gen", stream, str(seed), str(n)], timeout=900 + n // 10)
+    except subprocess.TimeoutExpired:
+        raise RuntimeError(f"generator for {stream} did not finish within its time limit (the crate is used by the generator: "
+                           f"writing the files to read, serializing the values)")
     if rc != 0:
         raise RuntimeError(f"generator for {stream} failed: {out[-500:]}")
     return [l for l in out.decode().split("\n") if l]
